@@ -61,9 +61,10 @@ def gen(rng):
         elif kw == 'blk':
             rules.append('%sbody: stmt*' % mods['body'])
             stmt_alts.append('%s %s %s %s%s' % (head, P('{', 'LBRACE'), ref['body'], P('}', 'RBRACE'), alias))
+    blob = need_expr and rng.random() < 0.4
     if need_expr:
         rules.append('%sexpr: expr %s term -> add | expr %s term -> sub | term' % (mods['expr'], P('+', 'PLUS'), P('-', 'MINUS')))
-        rules.append('%sterm: NAME | NUM | STR | %s expr %s' % (mods['term'], P('(', 'LPAR'), P(')', 'RPAR')))
+        rules.append('%sterm: NAME | NUM | STR %s| %s expr %s' % (mods['term'], '| BLOB ' if blob else '', P('(', 'LPAR'), P(')', 'RPAR')))
     lines = []
     two_starts = rng.random() < 0.25
     lines.append('start: stmt+')
@@ -75,6 +76,9 @@ def gen(rng):
     lines.append('NAME%s: /[a-z]+%s/%s' % (npr, '[a-z0-9]*' if rng.random() < 0.3 else '', 'i' if rng.random() < 0.3 else ''))
     lines.append('NUM%s: /[0-9]+/' % rng.choice(['', '.3']))
     lines.append('STR: /"[^"\\n]*"/')
+    if blob:
+        # a multi-line terminal with several regexp flags, whose only newline indicator is the dot under the `s` flag
+        lines.append('BLOB: /<<.+?>>/%s' % rng.choice(['is', 'si', 'ims', 's', 'sm']))
     for name, lit in sorted(named.items()):
         lines.append('%s%s: "%s"' % (name, rng.choice(['', '', '.2']), lit))
     lines.append('%ignore /[ \\t\\n]+/')
@@ -93,5 +97,5 @@ def gen(rng):
         opts['propagate_positions'] = True
     if rng.random() < 0.15:
         opts['g_regex_flags'] = 2           # re.I
-    samples = {'NAME': NAME_SAMPLES, 'NUM': ['1', '42'], 'STR': ['"s"', '""']}
+    samples = {'NAME': NAME_SAMPLES, 'NUM': ['1', '42'], 'STR': ['"s"', '""'], 'BLOB': ['<<a\nb>>', '<<x>>', '<<\n\n q>>']}
     return {'grammar': '\n'.join(lines) + '\n', 'options': opts, 'samples': samples}
